@@ -51,6 +51,8 @@ pub assume_specification<Idx: Clone> [<std::ops::Range<Idx> as Clone>::clone] (r
     im.resub(r'[ \t]*let byte_offset = \|char_offset: usize\| \{.*?\n[ \t]*\};\n', '', 'R14', 'lookup closure over the table -> named stub byte_offset_of (calls rewritten)', flags=16)
     im.resub(r'\bbyte_offset\(([^()]*(?:\([^()]*\))?[^()]*)\)', r'byte_offset_of(&char_byte_offsets, \1)', 'R14', 'closure call -> stub call', count=None)
     im.resub(r'\bline\.get\((\w+)\.\.(\w+)\)\.unwrap_or\(""\)', r'str_get_or_empty(line, \1, \2)', 'R19', 'str::get(range).unwrap_or("") -> stub', count=None)
+    im.resub(r'tokens\.sort_by_key\(\|token\| token\.location\(\)\.start\.index\);', 'sort_tokens_by_start(&mut tokens);', 'R14', 'slice::sort_by_key with a key closure -> stub (stable permutation sorted by start offset)', count=None)
+    im.resub(r'input_line\s*\.get\(piece\.start \+ 1\.\.piece\.end\.saturating_sub\(1\)\)\s*\.unwrap_or\(command\.as_str\(\)\)', 'str_get_or(input_line, piece.start + 1, if piece.end >= 1 { piece.end - 1 } else { 0 }, command.as_str())', 'R19', 'str::get(range).unwrap_or(fallback) -> stub; saturating_sub(1) spelled out', count=None)
     im.resub(r'\bline\.len\(\)', 'str_len(line)', 'R19', 'str::len -> str_len stub (byte length)', count=None)
     # R24: by-value traversal of the token / piece trees -> by reference (ownership is not observable in the spans)
     im.resub(r'for token in tokens \{', 'for token in tokens.iter() {', 'R24', 'consuming iteration -> by reference', count=None)
@@ -89,6 +91,8 @@ pub assume_specification<Idx: Clone> [<std::ops::Range<Idx> as Clone>::clone] (r
     LINEF = 'self.input_line == old(self).input_line && global_offset + byte_len(line@) <= isize::MAX && char_byte_offsets.text() == line@'
     PREV = '(if it.index@ == 0 { 0int } else { token_span(tokens@[it.index@ - 1]).end.index as int })'
     im.at_body_start(fn, 'proof { axiom_str_fits_usize(line); lemma_byte_len_nonneg(line@); }')
+    im.after_line(r'^\s*sort_tokens_by_start\(&mut tokens\);', 'proof { lemma_sorted_tokens_wf(tokens0@, tokens@, line@.len() as int); }', fn_name=fn, optional=True)
+    im.after_line(r'^\s*let mut tokens = tokens;', 'let ghost tokens0 = tokens;', fn_name=fn, optional=True)
     im.loop(0, fn_name=fn, iter_name='it', invariant=[
         C('aux', 'it.index@ + it.iter.remaining().len() == tokens@.len()'),
         C('aux', 'forall|k: int| 0 <= k < it.iter.remaining().len() ==> *(#[trigger] it.iter.remaining()[k]) == tokens@[it.index@ + k]'),
@@ -149,11 +153,11 @@ pub assume_specification<Idx: Clone> [<std::ops::Range<Idx> as Clone>::clone] (r
 }''', fn_name=fn, nth=None, optional=True)
     u.add(im)
     u.raw(FOOTER)
-    u.assume('external_body', 'brush_parser::tokenize_str_with_options and brush_parser::word::parse are stubs whose results are ASSUMED well-formed (tokens_wf / pieces_wf: offsets inside the text, ordered, nested, substituted command fits between its delimiters); get_kind_for_word is an arbitrary kind; the char->byte offset table and str::get(..).unwrap_or("") are R14/R19 stubs')
+    u.assume('external_body', 'brush_parser::tokenize_str_with_options and brush_parser::word::parse are stubs whose results are ASSUMED well-formed (tokens_sortable: token offsets inside the text, pairwise disjoint, same-start tokens only after an empty one — NOT ordered; pieces_wf: offsets inside the word, ordered, nested, a `$(..)` command fits between its delimiters); slice::sort_by_key is a stub stating the documented behaviour of std (stable permutation sorted by key); get_kind_for_word is an arbitrary kind; the char->byte offset table and str::get(..).unwrap_or("") are R14/R19 stubs')
     u.assume('assume_specification', 'Range::<usize>::is_empty() == !(start < end)')
     u.assume('axiom', 'meaning of Range::is_empty at usize; a string has at most isize::MAX bytes')
     u.assume('uninterp', 'range_is_empty_spec, CharByteOffsets::text')
-    u.assume('stub', 'character boundaries of span ends are NOT claimed here (the text of a backquoted substitution is not a verbatim slice of the line when it contains escaped backquotes); Arc<SourcePosition> is projected to SourcePosition')
+    u.assume('stub', 'character boundaries of span ends are NOT claimed here (piece offsets from the word parser are not known to be boundaries); Arc<SourcePosition> is projected to SourcePosition')
     u.expected_min_fns = 6
     u.rlimit = 60
     return u
